@@ -81,6 +81,39 @@ def w_constructors(case, led):
                       (not (~mk).any() or np.abs(d[~mk]).max() == 0) and abs(np.linalg.norm(d) - 1) < 1e-12,
                       "post:Mps.hartree_product_state:in_sector_and_qn_valid", "Mps.hartree_product_state",
                       f"qntot={hp.qntot} want {want}, qnv={S.qnv_violations(hp)[:1]}", key, {}, rep)
+    # the T = 0 / T = infinity reference states (Mps.ground_state): a product state in the zero sector with valid labels
+    kinds = {type(b).__name__ for b in model.basis}
+    if kinds <= {"BasisSHO", "BasisSimpleElectron", "BasisHalfSpin", "BasisMultiElectronVac", "BasisSineDVR", "BasisHopsBoson"}:
+        for max_ent in (False, True):
+            charged_spin = any(type(b).__name__ == "BasisHalfSpin" and np.any(np.asarray(b.sigmaqn) != 0) for b in model.basis)
+            if max_ent and charged_spin:
+                continue        # an equal superposition of the two spin states has no definite charge: outside the contract
+            for normalize in (True, False):
+                key = key0 + ("ground_state", max_ent, normalize)
+                rep = {"model": name, "nsites": n, "max_entangled": max_ent, "normalize": normalize}
+                try:
+                    g = Mps.ground_state(model, max_ent, normalize=normalize)
+                except Exception as e:
+                    led.check(False, "post:Mps.ground_state:total", "Mps.ground_state", f"raised {e!r}", key, {}, rep)
+                    continue
+                vecs = []
+                for b in model.basis:
+                    v_ = np.zeros(b.nbas)
+                    spread = max_ent and (b.is_phonon or type(b).__name__ == "BasisHalfSpin")
+                    if spread:
+                        v_[:] = 1.0 / np.sqrt(b.nbas) if normalize else 1.0
+                    else:
+                        v_[0] = 1.0
+                    vecs.append(v_)
+                want = vecs[0]
+                for v_ in vecs[1:]:
+                    want = np.kron(want, v_)
+                d = S.dense(g)
+                mk = S.sector_mask(model, np.zeros(model.qn_size, dtype=int))
+                led.check(d.shape == want.shape and np.abs(d - want).max() <= 1e-13 and not S.qnv_violations(g) and np.all(np.asarray(g.qntot) == 0)
+                          and (not (~mk).any() or np.abs(d[~mk]).max() == 0), "post:Mps.ground_state:product_state_in_the_zero_sector", "Mps.ground_state",
+                          f"differs from the product of the local reference vectors by {np.abs(d - want).max() if d.shape == want.shape else 'shape'}; qntot={g.qntot}, qnv={S.qnv_violations(g)[:1]}",
+                          key, {"max_entangled": max_ent, "normalize": normalize}, rep)
     # ground-state search conserves the sector
     if n >= 2:
         for q in sectors[1:3]:
